@@ -52,23 +52,7 @@ SEP_DOCS = [
     [[[1, 2], [3]], [[4]]],
 ]
 
-# characters with one member per case split in lex.py / parse.py / serialize.py
-SIGMA_C = ["a", "b", "_", "-", "0", "1", "+", " ", "'", '"', "\\", "/", "~", "#", ".", "[", "]", "%", "\n", "\x01",
-           "\x7f", "é", "𝄞", "１", "*"]
-
-
-def names_upto(n):
-    out = [""]
-    for ln in range(1, n + 1):
-        for t in itertools.product(SIGMA_C, repeat=ln):
-            out.append("".join(t))
-    return out
-
-
-LOOKALIKES = ["01", "00", "-0", "+1", "1_0", " 1", "1 ", "1e1", "1.0", "-", "and", "or", "not", "in", "contains",
-              "true", "True", "false", "False", "nil", "Nil", "null", "Null", "none", "None", "undefined", "missing",
-              "length", "count", "match", "search", "value", "~0", "~1", "a b", "$", "@", "a.b", "a'b\"c", "\\n",
-              "퟿", "", "￿", "日本"]
+from ..gen.alpha import SIGMA_C, LOOKALIKES, names_upto  # noqa: E402
 
 
 def selftest():
